@@ -115,7 +115,9 @@ class Repo:
                 base = node.module or ""
                 if node.level:
                     pkg_parts = mod.name.split(".")
-                    pkg_parts = pkg_parts[: len(pkg_parts) - node.level]
+                    # in a package's __init__ one dot is the package itself
+                    drop = node.level - 1 if os.path.basename(mod.path) == "__init__.py" else node.level
+                    pkg_parts = pkg_parts[: len(pkg_parts) - drop]
                     base = ".".join(pkg_parts + ([node.module] if node.module else []))
                 for al in node.names:
                     mod.imports[al.asname or al.name] = f"{base}.{al.name}"
@@ -293,15 +295,37 @@ class Repo:
             raise AnalysisError(f"anchor module vanished: {name}")
         return self.modules[name]
 
+    def _through_reexports(self, mod: ModuleInfo, name: str, kind: str):
+        """A name a module re-exports (`from ._part import name` in a package __init__) is found where it is defined."""
+        if name in mod.imports:
+            found = self.lookup(f"{mod.name}.{name}")
+            if found and found[0] == kind:
+                return found
+        return None
+
     def function(self, short_mod: str, fname: str) -> ast.FunctionDef:
         mod = self.module(short_mod)
         if fname not in mod.functions:
+            found = self._through_reexports(mod, fname, "func")
+            if found:
+                return found[2]
             raise AnalysisError(f"anchor function vanished: {mod.name}.{fname}")
         return mod.functions[fname]
+
+    def home(self, short_mod: str, name: str) -> ModuleInfo:
+        """The module in which a name reachable as <short_mod>.<name> is defined."""
+        mod = self.module(short_mod)
+        if name in mod.functions or name in mod.classes or name in mod.constants:
+            return mod
+        found = self.lookup(f"{mod.name}.{name}")
+        return found[1] if found else mod
 
     def cls(self, short_mod: str, cname: str) -> ClassInfo:
         mod = self.module(short_mod)
         if cname not in mod.classes:
+            found = self._through_reexports(mod, cname, "class")
+            if found:
+                return found[2]
             raise AnalysisError(f"anchor class vanished: {mod.name}.{cname}")
         return mod.classes[cname]
 
@@ -314,6 +338,9 @@ class Repo:
     def constant(self, short_mod: str, cname: str) -> ast.expr:
         mod = self.module(short_mod)
         if cname not in mod.constants:
+            found = self._through_reexports(mod, cname, "const")
+            if found:
+                return found[2]
             raise AnalysisError(f"anchor constant vanished: {mod.name}.{cname}")
         return mod.constants[cname]
 
